@@ -727,6 +727,21 @@ type c03Embedded struct {
 	C03Base
 	X int64 `parquet:"x"`
 }
+// two levels of embedding; the first level does not sit at offset zero of the row type
+type C03Inner struct {
+	Z int64 `parquet:"z,optional"`
+	Q int64 `parquet:"q"`
+}
+type C03Middle struct {
+	Y int64 `parquet:"y"`
+	C03Inner
+	W *int64 `parquet:"w"`
+}
+type c03Embedded2 struct {
+	X int64 `parquet:"x"`
+	C03Middle
+	V int64 `parquet:"v,optional"`
+}
 type c03OptGroup struct {
 	G struct {
 		A int64 `parquet:"a"`
@@ -777,6 +792,7 @@ var c03Statics = []c03Static{
 	c03Reg[c03NestedList]("NestedList"),
 	c03Reg[c03Map]("Map"),
 	c03Reg[c03Embedded]("Embedded"),
+	c03Reg[c03Embedded2]("Embedded2"),
 	c03Reg[c03OptGroup]("OptGroup"),
 	c03Reg[c03Fixed]("Fixed"),
 	c03Reg[c03Wide]("Wide"),
